@@ -64,6 +64,7 @@ func main() {
 	tags := flag.String("tags", "verif", "build tags")
 	stmtYield := flag.String("stmtyield", "", "comma separated repo-relative files that get a yield before every statement")
 	setConst := flag.String("setconst", "", "comma separated file:name=value: replace the value of a package level constant (a tuning knob)")
+	inOverlay := flag.String("inoverlay", "", "comma separated repo-relative-file=replacement-file: read these files instead of the repository's (a patch under test, /repo untouched)")
 	flag.Parse()
 	if *out == "" || flag.NArg() == 0 {
 		fmt.Fprintln(os.Stderr, "usage: instr -out dir [-repo /repo] pkg...")
@@ -88,6 +89,22 @@ func main() {
 		overlay[key] = kp
 		listOverlay[crt] = c
 		listOverlay[key] = k
+	}
+
+	patched := map[string]string{} // absolute repo path -> replacement file
+	for _, f := range strings.Split(*inOverlay, ",") {
+		if f == "" {
+			continue
+		}
+		rel, repl, ok := strings.Cut(f, "=")
+		if !ok {
+			die(fmt.Errorf("bad -inoverlay %q", f))
+		}
+		b, err := os.ReadFile(repl)
+		must(err)
+		abs := filepath.Join(*repo, rel)
+		patched[abs] = repl
+		listOverlay[abs] = b
 	}
 
 	stmtFiles := map[string]bool{}
@@ -165,6 +182,9 @@ func main() {
 			st.Files++
 			r := &rewriter{pkg: p, file: f, fset: p.Fset, info: p.TypesInfo, fname: name, stmtYield: stmtFiles[name], setConst: constFiles[name]}
 			if !r.rewrite() {
+				if repl, ok := patched[name]; ok {
+					overlay[name] = repl // not instrumented, but replaced
+				}
 				continue
 			}
 			st.Changed++
